@@ -282,7 +282,7 @@ def ob_conv(ctx, which):
     return inconc(str(r[1]))
 
 # ---- batchInverse: ring-level, abstract inverse symbol
-def ob_batchinv(ctx, n):
+def ob_batchinv(ctx, n, place='disjoint'):
     """Goldilocks3::mul/inv/copy summarised as operations of an abstract commutative ring (elements = Int symbols);
        res[i]·src[i] = I·Π src  as polynomial identities (I = the symbol of the single inverse), extents checked."""
     w = core.world(ctx.bdir, MODS); w.hooks = dict(w.base_hooks)
@@ -308,10 +308,11 @@ def ob_batchinv(ctx, n):
     it = Interp(w)
     src = Obj(24 * n, 'src', 8); xs = [z3.Int('x%d' % i) for i in range(n)]
     for i in range(n): wr(Ptr(src, 24 * i), xs[i])
-    res = Obj(24 * n, 'res', 8)
+    res = src if place == 'inplace' else Obj(24 * n, 'res', 8)      # in place: the results overwrite the inputs (res == src)
     try: it.call(fn, [Ptr(res, 0), Ptr(src, 0), n])
     except Violation as e: return viol('batchInverse/%s' % e.kind, 'batchInverse(size=%d): %s' % (n, e.msg), replay=dict(event=str(e)))
-    if len(invs) != 1: return native_batchinv_check(ctx, fn, n, 'batchInverse(size=%d) performs %d inversions (the ring-level argument covers the single-inversion scheme only)' % (n, len(invs)))
+    ptxt = ' in place (res == src)' if place == 'inplace' else ''
+    if len(invs) != 1: return native_batchinv_check(ctx, fn, n, 'batchInverse(size=%d)%s performs %d inversions (the ring-level argument covers the single-inversion scheme only)' % (n, ptxt, len(invs)))
     X, I_ = invs[0]; prod = 1
     for x in xs: prod = prod * x
     s = z3.Solver(); s.set('timeout', 60000)
@@ -319,7 +320,7 @@ def ob_batchinv(ctx, n):
     bad = [X != prod] + [rd(Ptr(res, 24 * i)) * xs[i] != I_ * prod for i in range(n)]
     s.add(z3.Or(bad)); r = smt.check(s)
     if r == z3.unsat: return ok('size %d: one inversion of Π src; res[i]·src[i] = I·Π src for all i (ring identities); extents exact' % n, sample=dict(op='batchInverse', size=n))
-    if r == z3.sat: return native_batchinv_check(ctx, fn, n, 'batchInverse(size=%d): ring identities res[i]·src[i] = I·Π src fail at the abstract level' % n)
+    if r == z3.sat: return native_batchinv_check(ctx, fn, n, 'batchInverse(size=%d)%s: ring identities res[i]·src[i] = I·Π src fail at the abstract level' % (n, ptxt))
     return inconc('batchInverse identity unknown')
 
 def _special_elems(rng):
@@ -381,6 +382,7 @@ def obligations(ctx):
     for c in kern.compare_constants(w, '@_ZN11Goldilocks312batchInverseEPA3_N10Goldilocks7ElementES3_m', lo=5, hi=4096)[:3]:
         sizes |= {c - 1, c, c + 1, 2 * c + 1, 2 * c + 2}
     for n in sorted(sizes): obs.append(Ob('batchInverse/%d' % n, ob_batchinv, (n,)))
+    for n in (1, 2, 3, 4): obs.append(Ob('batchInverse/%d/inplace' % n, ob_batchinv, (n, 'inplace')))
     from . import C03
     return obs + C03.contract_obs(ctx)
 
